@@ -1,5 +1,6 @@
 import Driver.Sexp
 import Driver.Util
+import Driver.Life
 open Nop Nop.Driver
 
 structure DState where
@@ -80,6 +81,10 @@ def step (d : DState) (line : String) : DState × Option String :=
     if ["rseq", "wseq", "sip", "sipspec", "tabhash", "ifchash", "sel64", "sel32", "endian"].contains op then
       match rest.mapM atomStr with
       | some toks => (d, some ((utilStep (op :: toks)).getD "bad-op"))
+      | none => (d, some "bad-op")
+    else if ["life", "cmp"].contains op then
+      match rest.mapM atomStr with
+      | some toks => (d, some ((lifeStep (op :: toks)).getD "bad-op"))
       | none => (d, some "bad-op")
     else (d, some "bad-op")
   | _ => (d, some "bad-op")
